@@ -254,7 +254,10 @@ int janet_fiber_funcframe(JanetFiber *fiber, JanetFunction *func) {
 static void janet_env_detach(JanetFuncEnv *env) {
     /* Check for closure environment */
     if (env) {
-        janet_env_valid(env);
+        /* An untrusted (unmarshalled) environment that does not match a frame of its
+         * fiber has just been reset to an empty off-stack environment, and a frame can
+         * also carry an environment that is off-stack already: nothing to copy then. */
+        if (!janet_env_valid(env) || env->offset <= 0) return;
         int32_t len = env->length;
         size_t s = sizeof(Janet) * (size_t) len;
         Janet *vmem = janet_malloc(s);
